@@ -974,7 +974,7 @@ def replay(payload):
     res = C.Result()
     if "base" in inp:
         b, a = spec_of(inp["base"]), spec_of(inp["aux"])
-        ops = [tuple(o) for o in inp["ops"]]
+        ops = [("restrict", [tuple(x) for x in o[1]]) if o[0] == "restrict" else tuple(o) for o in inp["ops"]]
         line = C.run_model(["\t".join(["hist"] + b.args() + a.args() + [x for o in ops for x in op_args(o)])], driver="driver_c12")[0]
         run_history(nap, res, b, a, ops, line)
     elif "groups" in inp:
